@@ -209,6 +209,25 @@ let dispatch (req : string list) (impl : string list) : string * string =
           ("OK " ^ pep_fields v, verdict))
       | o -> failwith ("fmt " ^ o)
     end
+  | "VER" :: mode :: _ ->
+    let c = { Zenc.f = Array.of_list req; Zenc.i = 2 } in
+    let stdin =
+      if List.nth req 2 = "~" then (c.Zenc.i <- 3; None)
+      else (let z = Zenc.zerv c in Some (Some z))
+    in
+    if Zenc.next c <> "A" then failwith "expected A";
+    let n = int_of_string (Zenc.next c) in
+    let argv = List.init n (fun _ -> let b = Wire.bytes_of_hexfield (Zenc.next c) in String.init (List.length b) (fun i -> Char.chr (List.nth b i))) in
+    if Zenc.next c <> "X" then failwith "expected X";
+    let ron = (match Zenc.next c with "~" -> None | "!" -> Some None | "R" -> Some (Some (Zenc.schema c)) | o -> failwith ("ron " ^ o)) in
+    let custom = (match Zenc.next c with "~" -> None | "!" -> Some None | "J" -> Some (Some (Zenc.json c)) | o -> failwith ("custom " ^ o)) in
+    let a = Args.parse argv ron custom in
+    let reply =
+      if mode = "zerv" then
+        (match version_zerv a stdin N0 with OOk z -> "OK " ^ Zenc.enc_zerv z | OErr -> "ERR" | OPanic -> "PANIC")
+      else (match version_output a stdin N0 with OOk t -> "OK " ^ field_of_str t | OErr -> "ERR" | OPanic -> "PANIC")
+    in
+    (reply, (match impl with "PANIC" :: _ -> "BAD:panic" | "REPARSE-FAILED" :: _ -> "BAD:emitted-zerv-does-not-parse" | _ -> "NA"))
   | [ "CNV"; inf; outf; prefix; s ] ->
     let fmt_of = function "semver" -> FSemver | "pep440" -> FPep440 | "auto" -> FAuto | o -> failwith ("fmt " ^ o) in
     let pre = match opt_str_of_field prefix with Some p -> p | None -> [] in
@@ -315,7 +334,11 @@ let () =
       if String.length line > 0 then begin
         let fs = String.split_on_char ' ' line in
         let req, impl = split_bar fs in
-        let reply, verdict = try dispatch req impl with Failure m -> ("MODELERR " ^ m, "NA") in
+        let reply, verdict =
+          try dispatch req impl with
+          | Failure m -> ("MODELERR " ^ m, "NA")
+          | e -> ("MODELERR " ^ String.map (fun c -> if c = ' ' || c = '\t' || c = '\n' then '_' else c) (Printexc.to_string e), "NA")
+        in
         print_string reply;
         print_char '\t';
         print_endline verdict
